@@ -268,6 +268,74 @@ pub fn run(tier: Tier, seed: u64) -> i32 {
         }
         Err(e) => cx.violate_case("honest-step/error", e, json!({})),
     }));
+    // (b) truly uninterrupted baseline: the whole flow with every party's state kept in memory as typed objects,
+    // against the same flow with reloads at <=2 (quick) / <=3 (thorough) of the six persistence points (and all 4^6
+    // subsets on the two fastest suites in the thorough tier).  This sees defects that a byte-level harness cannot:
+    // one where serialize() itself loses or confuses a field, so that only the never-serialized object is right.
+    {
+        let cs = chains(false);
+        let k = if tier.thorough() { 3 } else { 2 };
+        let mut plans: Vec<Vec<usize>> = crate::alphabet::deviations(&[4, 4, 4, 4, 4, 4], k);
+        if tier.thorough() {
+            plans.push(vec![1, 1, 1, 1, 1, 1]);
+            plans.push(vec![2, 2, 2, 2, 2, 2]);
+            plans.push(vec![3, 3, 3, 3, 3, 3]);
+        }
+        let mut items = vec![];
+        for api in all_apis() {
+            for s in 0..2 {
+                items.push((api, s, plans.clone()));
+            }
+        }
+        if tier.thorough() {
+            for api in all_apis().into_iter().take(2) {
+                items.push((api, 1, crate::alphabet::product(&[4, 4, 4, 4, 4, 4])));
+            }
+        }
+        tot.merge(fw::run_items("C13", &items, |(a, _, _)| a.name().to_string(), |(api, s, plans), cx| {
+            let p = setting(*s);
+            let label = format!("seed{}/c13/mem/{}", seed, s);
+            let none: [Chain; 6] = Default::default();
+            let base = match api.flow_in_memory(&mut Tape::new(&label), &p.pw, &p.cid, o(&p.ctx), o(&p.idu), o(&p.ids), &none) {
+                Ok(b) => b,
+                Err((st, e)) => {
+                    cx.violate_case("honest-step/in-memory-flow", format!("uninterrupted in-memory flow fails at step {}: {:?}", st, e), json!({}));
+                    return;
+                }
+            };
+            cx.context_done();
+            for ix in plans {
+                let plan: [Chain; 6] = [cs[ix[0]].clone(), cs[ix[1]].clone(), cs[ix[2]].clone(), cs[ix[3]].clone(), cs[ix[4]].clone(), cs[ix[5]].clone()];
+                cx.begin_case(json!({"reload_plan": {"setup@registration": format!("{:?}", plan[0]), "client_registration": format!("{:?}", plan[1]), "password_file": format!("{:?}", plan[2]), "setup@login": format!("{:?}", plan[3]), "client_login": format!("{:?}", plan[4]), "server_login": format!("{:?}", plan[5])}, "setting": s}));
+                if !cx.state(&("mem", s, ix)) {
+                    continue;
+                }
+                cx.edges += 1;
+                cx.path();
+                match api.flow_in_memory(&mut Tape::new(&label), &p.pw, &p.cid, o(&p.ctx), o(&p.idu), o(&p.ids), &plan) {
+                    Ok(f) if f == base => cx.outcome("equals-in-memory-run"),
+                    Ok(f) => {
+                        let names = ["setup", "req", "resp", "upload", "export_reg", "spk_reg", "file", "ke1", "ke2", "ke3", "session_key(client)", "export_login", "spk_login", "session_key(server)", "no-record response", "no-record server state"];
+                        let av = [&f.setup, &f.req, &f.resp, &f.upload, &f.export_reg, &f.spk_reg, &f.file, &f.ke1, &f.ke2, &f.ke3, &f.sk_client, &f.export_login, &f.spk_login, &f.sk_server, &f.fake_ke2, &f.fake_state];
+                        let bv = [&base.setup, &base.req, &base.resp, &base.upload, &base.export_reg, &base.spk_reg, &base.file, &base.ke1, &base.ke2, &base.ke3, &base.sk_client, &base.export_login, &base.spk_login, &base.sk_server, &base.fake_ke2, &base.fake_state];
+                        let which = (0..names.len()).find(|i| av[*i] != bv[*i]).map(|i| names[i]).unwrap_or("?");
+                        let pts = ["setup@registration", "client_registration", "password_file", "setup@login", "client_login", "server_login"];
+                        let first = (0..6).find(|i| ix[*i] != 0).map(|i| format!("{}/{:?}", pts[i], cs[ix[i]])).unwrap_or_default();
+                        cx.outcome("DIVERGED");
+                        cx.violate(&format!("in-memory/diverges/{}/{}", first, which), format!("with reloads {:?} the artefact '{}' differs from the run whose state never left memory", ix, which));
+                    }
+                    Err((st, e)) => {
+                        let pts = ["setup@registration", "client_registration", "password_file", "setup@login", "client_login", "server_login"];
+                        let first = (0..6).find(|i| ix[*i] != 0).map(|i| format!("{}/{:?}", pts[i], cs[ix[i]])).unwrap_or_default();
+                        cx.outcome("FAILED-AFTER-RELOAD");
+                        cx.violate(&format!("in-memory/fails-after-reload/{}", first), format!("with reloads {:?} the flow fails at step {}: {:?}", ix, st, e));
+                    }
+                }
+            }
+            // also without a password file: a reloaded setup must serve unregistered users identically
+            cx.sample(json!({"suite": api.name(), "part": "in-memory baseline", "plans": plans.len()}));
+        }));
+    }
     // thorough: every one of the 4^6 flows explicitly, no merging, on the two fastest suites
     let mut explicit = 0u64;
     if tier.thorough() {
